@@ -233,6 +233,17 @@ def _member(ex, st, items, assume_fn, tag="member"):
             return ev[2]
     b = z3.Bool(ex.fresh_name("bound"))
     assume_fn(z3.Implies(b, z_normal_form(items)))
+    # an aggregate the code took over the key set (the longest key, say) bounds every member: a bound name's measure is at most that maximum
+    agg = st.aux.get("keyset_max") if tag == "member" else None
+    if agg is not None:
+        from mir.models import call_fn_value
+        f, m_, nonempty = agg
+        cell = ex.new_cell(st, StrV(None, seq=VecV(z3.IntVal(len(items)), tuple(items), "char")), "key")
+        outs = [o for o in call_fn_value(ex, st, f, [Ref(cell)]) if o.kind == "return"]
+        if len(outs) == 1 and isinstance(outs[0].value, Sc):
+            assume_fn(z3.Implies(b, z3.And(nonempty, outs[0].value.e <= m_)))
+        else:
+            raise MirUnsupported("the measure the code takes over the key set could not be applied to a candidate name")
     for ev in st.log:
         if ev[0] == tag and len(ev[1]) == len(items):
             assume_fn(z3.Implies(z3.And([x.e == y.e for x, y in zip(ev[1], items)] + [z3.BoolVal(True)]), b == ev[2]))
@@ -256,6 +267,23 @@ def m_keyset_contains(ex, st, callee, args, dest_ty):
     b = _member(ex, st, items, lambda c: ex.assume(st, c))
     st.log.append(("asked", list(items), b))
     yield st, mk_bool(b)
+
+
+def m_keyset_iter(ex, st, callee, args, dest_ty):
+    yield st, Opaque("KeySetIter")
+
+
+def m_keyset_map(ex, st, callee, args, dest_ty):
+    yield st, Opaque("KeySetMap", info=args[1])
+
+
+def m_keyset_max(ex, st, callee, args, dest_ty):
+    """max of a measure over the (unknown) key set: some number that bounds the measure of every member; None for the empty set"""
+    it = args[0]
+    m_ = ex.fresh_int(st, "usize", "keyset_max")
+    nonempty = z3.Bool(ex.fresh_name("keyset_nonempty"))
+    st.aux["keyset_max"] = (it.info, m_.e, nonempty)
+    yield st, En("Option", z3.If(nonempty, z3.IntVal(1), z3.IntVal(0)), {"None": (), "Some": (m_,)})
 
 
 def m_vec_range_to(ex, st, callee, args, dest_ty):
@@ -371,6 +399,9 @@ NAME_MODELS = [
     (R(r"^<(dmntk_feel::)?Name as ToString>::to_string$"), m_name_to_string),
     (R(r"^(dmntk_feel::)?Scope::flatten_keys$"), m_flatten_keys),
     (R(r"^HashSet::<(std::string::)?String>::contains::<(std::string::)?String>$"), m_keyset_contains),
+    (R(r"^HashSet::<(std::string::)?String>::iter$"), m_keyset_iter),
+    (R(r"^<std::collections::hash_set::Iter<'_, (std::string::)?String> as Iterator>::map::<.*>$"), m_keyset_map),
+    (R(r"^<(std::iter::)?Map<std::collections::hash_set::Iter<'_, (std::string::)?String>, .*> as Iterator>::max$"), m_keyset_max),
 ] + cs.STR_MODELS + fv.VALUE_MODELS
 
 # ----------------------------------------------------------------------------- python oracle (replay side)
